@@ -120,7 +120,19 @@ func (e *env) tr(x spec.Expr) sval {
 		if x.Forall {
 			kw = "forall"
 		}
-		return sval{t: fmt.Sprintf("(%s (%s) %s)", kw, strings.Join(bs, " "), body.t), sort: "Bool", gt: types.Typ[types.Bool]}
+		bt := body.t
+		if len(x.Triggers) > 0 {
+			var pats []string
+			for _, tr := range x.Triggers {
+				var ts []string
+				for _, te := range tr {
+					ts = append(ts, n.tr(te).t)
+				}
+				pats = append(pats, ":pattern ("+strings.Join(ts, " ")+")")
+			}
+			bt = fmt.Sprintf("(! %s %s)", bt, strings.Join(pats, " "))
+		}
+		return sval{t: fmt.Sprintf("(%s (%s) %s)", kw, strings.Join(bs, " "), bt), sort: "Bool", gt: types.Typ[types.Bool]}
 	case *spec.Index:
 		base := e.tr(x.X)
 		idx := e.tr(x.I)
